@@ -230,7 +230,125 @@ fn expand<'a>(det: &'a Option<Vec<u8>>, parsed: Option<&'a [u8]>) -> Option<&'a 
   }
 }
 
+/// `real <alg> <variant>`: a compact token signed with a real key, its signature segment altered, decoded by the library and
+/// verified with the library's own verifier for that algorithm (EdDSAJwsVerifier / EcDSAJwsVerifier).
+/// variants: `valid` | `flip:<byte>:<bit>` | `append:<k>` (k zero bytes) | `appendr:<k>` (k 0xA5 bytes) | `trunc:<k>` | `zero`
+/// | `der` (ECDSA: the ASN.1 DER form of the same r, s) | `otherkey` | `otheralg` (key of the other family)
+fn real(alg: &str, variant: &str) -> String {
+  use identity_core::convert::FromJson;
+  use identity_jose::jws::JwsAlgorithm;
+  use identity_ecdsa_verifier::EcDSAJwsVerifier;
+  use identity_eddsa_verifier::EdDSAJwsVerifier;
+  let b64 = crate::jwtu::b64;
+  let header = format!(r#"{{"alg":"{}"}}"#, alg);
+  let si = format!("{}.{}", b64(header.as_bytes()), b64(br#"{"iss":"did:ex:i1","n":1}"#));
+  // (signature bytes, DER form if any, public JWK, another public JWK of the same family)
+  let (sig, der, jwk, other): (Vec<u8>, Option<Vec<u8>>, String, String) = match alg {
+    "ES256" => {
+      use p256::ecdsa::signature::Signer;
+      let mk = |seed: u8| {
+        let sk = p256::ecdsa::SigningKey::from_slice(&[seed; 32]).unwrap();
+        let pt = sk.verifying_key().to_encoded_point(false);
+        let jwk = format!(r#"{{"kty":"EC","crv":"P-256","x":"{}","y":"{}"}}"#, b64(pt.x().unwrap()), b64(pt.y().unwrap()));
+        (sk, jwk)
+      };
+      let (sk, jwk) = mk(7);
+      let sg: p256::ecdsa::Signature = sk.sign(si.as_bytes());
+      (sg.to_bytes().to_vec(), Some(sg.to_der().as_bytes().to_vec()), jwk, mk(9).1)
+    }
+    "ES256K" => {
+      use k256::ecdsa::signature::Signer;
+      let mk = |seed: u8| {
+        let sk = k256::ecdsa::SigningKey::from_slice(&[seed; 32]).unwrap();
+        let pt = sk.verifying_key().to_encoded_point(false);
+        let jwk = format!(r#"{{"kty":"EC","crv":"secp256k1","x":"{}","y":"{}"}}"#, b64(pt.x().unwrap()), b64(pt.y().unwrap()));
+        (sk, jwk)
+      };
+      let (sk, jwk) = mk(7);
+      let sg: k256::ecdsa::Signature = sk.sign(si.as_bytes());
+      (sg.to_bytes().to_vec(), Some(sg.to_der().as_bytes().to_vec()), jwk, mk(9).1)
+    }
+    "EdDSA" => {
+      use identity_storage::JwkStorage;
+      let rt = tokio::runtime::Builder::new_current_thread().build().unwrap();
+      let store = identity_storage::JwkMemStore::new();
+      let a = rt.block_on(store.generate(identity_storage::JwkMemStore::ED25519_KEY_TYPE, JwsAlgorithm::EdDSA)).unwrap();
+      let b = rt.block_on(store.generate(identity_storage::JwkMemStore::ED25519_KEY_TYPE, JwsAlgorithm::EdDSA)).unwrap();
+      let sg = rt.block_on(store.sign(&a.key_id, si.as_bytes(), &a.jwk)).unwrap();
+      use identity_core::convert::ToJson;
+      (sg, None, a.jwk.to_json().unwrap(), b.jwk.to_json().unwrap())
+    }
+    _ => return "bad-request".into(),
+  };
+  let p: Vec<&str> = variant.split(':').collect();
+  let mut key_json = jwk.clone();
+  let altered: Vec<u8> = match p.as_slice() {
+    ["valid"] => sig.clone(),
+    ["flip", by, bit] => {
+      let (Ok(by), Ok(bit)) = (by.parse::<usize>(), bit.parse::<u32>()) else { return "bad-request".into() };
+      let mut s = sig.clone();
+      if by >= s.len() || bit > 7 {
+        return "bad-request".into();
+      }
+      s[by] ^= 1 << bit;
+      s
+    }
+    ["append", k] => {
+      let Ok(k) = k.parse::<usize>() else { return "bad-request".into() };
+      let mut s = sig.clone();
+      s.extend(std::iter::repeat(0u8).take(k));
+      s
+    }
+    ["appendr", k] => {
+      let Ok(k) = k.parse::<usize>() else { return "bad-request".into() };
+      let mut s = sig.clone();
+      s.extend(std::iter::repeat(0xa5u8).take(k));
+      s
+    }
+    ["trunc", k] => {
+      let Ok(k) = k.parse::<usize>() else { return "bad-request".into() };
+      sig[..sig.len().saturating_sub(k)].to_vec()
+    }
+    ["zero"] => vec![0u8; sig.len()],
+    ["der"] => match &der {
+      Some(d) => d.clone(),
+      None => return "bad-request".into(),
+    },
+    ["otherkey"] => {
+      key_json = other.clone();
+      sig.clone()
+    }
+    _ => return "bad-request".into(),
+  };
+  let token = format!("{}.{}", si, b64(&altered));
+  let Ok(key) = Jwk::from_json(&key_json) else { return "bad-request".into() };
+  let item = match Decoder::new().decode_compact_serialization(token.as_bytes(), None) {
+    Ok(i) => i,
+    Err(_) => return with_real("decode-err", variant),
+  };
+  let ok = if alg == "EdDSA" { item.verify(&EdDSAJwsVerifier::default(), &key).is_ok() } else { item.verify(&EcDSAJwsVerifier::default(), &key).is_ok() };
+  with_real(if ok { "verified" } else { "rejected" }, variant)
+}
+
+fn with_real(obs: &str, variant: &str) -> String {
+  let want_verified = variant == "valid";
+  if (obs == "verified") != want_verified {
+    format!("{}\t#FAIL:real-verifier-binding:a token whose signature segment is `{}` is {} by the library's own verifier", obs, variant, obs)
+  } else {
+    obs.to_string()
+  }
+}
+
 pub fn run(args: &[&str]) -> String {
+  if let [Some("real"), Some(alg), Some(v)] = [args.first().copied(), args.get(1).copied(), args.get(2).copied()] {
+    if args.len() == 3 {
+      return real(alg, v);
+    }
+  }
+  run_inner(args)
+}
+
+fn run_inner(args: &[&str]) -> String {
   match args.first().copied() {
     Some("compact") if args.len() >= 4 => {
       let (Some(tok), Some(det), Some((kid, key))) = (unhex(args[1]), opt_bytes(args[2]), key_of(args[3])) else { return "bad-request".into() };
@@ -378,6 +496,28 @@ fn hdr_json_bytes(spec: &str) -> Vec<u8> {
 
 pub fn gen(thorough: bool, seed: u64, out: &mut impl Write) {
   let mut r = Rng::new(seed ^ 0xC01);
+  // (0) the library's own verifiers on tokens signed with real keys: every single-bit flip of the signature, appended
+  // and removed bytes, the all-zero signature, the DER form (ECDSA), another key of the same family
+  for alg in ["EdDSA", "ES256", "ES256K"] {
+    writeln!(out, "C01 real {} valid", alg).unwrap();
+    for by in 0..64 {
+      for bit in 0..8 {
+        if thorough || (by * 8 + bit) % 5 == 0 || by == 0 || by == 31 || by == 32 || by == 63 {
+          writeln!(out, "C01 real {} flip:{}:{}", alg, by, bit).unwrap();
+        }
+      }
+    }
+    for k in [1usize, 2, 3, 6, 7, 8, 13, 32, 64] {
+      writeln!(out, "C01 real {} append:{}", alg, k).unwrap();
+      writeln!(out, "C01 real {} appendr:{}", alg, k).unwrap();
+      writeln!(out, "C01 real {} trunc:{}", alg, k).unwrap();
+    }
+    writeln!(out, "C01 real {} zero", alg).unwrap();
+    writeln!(out, "C01 real {} otherkey", alg).unwrap();
+    if alg != "EdDSA" {
+      writeln!(out, "C01 real {} der", alg).unwrap();
+    }
+  }
   let prot_specs = [
     "H:EdDSA:-:-:-:-",
     "H:EdDSA:t:b64:-:-",
